@@ -189,6 +189,8 @@ class ProgModel(nn.Module):
                     self.param_bufs.append((f"p{ip}", buf, lay))
                 if lf["ty"][0] in ("G", "A"):
                     prm = pp.Parameter(wrap_leaf(lf["ty"], t), requires_grad=lf["rg"])
+                elif lf.get("pp_param") and dtype is None:     # (13) a Euclidean parameter wrapped by pp.Parameter
+                    prm = pp.Parameter(t, requires_grad=lf["rg"])
                 else:
                     prm = nn.Parameter(t, requires_grad=lf["rg"])
                 setattr(self, f"p{ip}", prm)
